@@ -132,10 +132,32 @@ def run_C05(ctx, E):
     stage_record_trace(ctx, E, "sep", "C04_Trace", "C04_Trace.cfg", heap="8g")
 
 
+def run_C06(ctx, E):
+    ctx.exhaustive = True
+    stage_mc_replay(ctx, E, "cells", "C06_MC", "C06_MC_cells.cfg")
+    stage_mc_replay(ctx, E, "hom", "C06_MC", "C06_MC_hom_%s.cfg" % ctx.tier)
+    stage_record_trace(ctx, E, "tr", "C06_Trace", "C06_Trace.cfg", heap="8g")
+
+
 _seqhash_note = ("trusted: TLC, community modules; the digest is uninterpreted in the specification and instantiated "
                  "in the replayer by a from-scratch BLAKE3 transcription pinned by the official test vectors; "
                  "double-stranded inputs containing Z or (under type DNA) U are outside the strand clause and not replayed")
 PROPS = {
+    "C06": dict(run=run_C06,
+                technique="TLC complete enumeration of GeneticCode.tla (standard code + NCBI reassignments, start/stop "
+                          "lists) with homomorphism theorems; every cell replayed on codon.Translate/GetCodonTable; TLC "
+                          "trace validation of recorded translations and split points",
+                level_text="all 25 x 64 codon cells and the 50 start/stop lists are TLC states and are replayed (complete, "
+                           "not sampled; each codon in four casings); the homomorphism, partial-codon and case theorems "
+                           "are checked on the definition for every mixed-case word to length 5 (quick) / 7 (thorough) "
+                           "under three tables and replayed; recorded translations of random strings to 3000 letters "
+                           "under every table, with every codon-boundary split of strings <= 300, are judged codon by "
+                           "codon by C06_Trace",
+                level_note="trusted: TLC, community modules; NCBI's tables are reproduced from memory as differences "
+                           "from the standard code (no network), consistency ASSUMEs tie stop lists to '*' assignments",
+                rule="S->I: one case per (table, codon) cell, per table list pair and per enumerated word; I->S: one "
+                     "event per (table, random string)",
+                assumptions=["Translate of the empty string may return an error or the empty protein"]),
     "C04": dict(run=run_C04,
                 technique="TLC exhaustive evaluation of Seqhash.tla (canonical form, brute-force orbits) with orbit-"
                           "invariance theorems; every emitted (input, flags, tag, canon) replayed on seqhash.Hash; "
